@@ -143,6 +143,28 @@ func hostProxy(ctx context.Context, host, shimPath string, injectShimCode, force
 	return banner.Proxy(ctx, h, *injectBanner, *bannerHeight, *favIconURL, metricHandler)
 }
 
+// keepEndToEnd removes the named header from the hop-by-hop options listed in
+// the Connection header, so that no intermediary drops it.
+func keepEndToEnd(header http.Header, name string) {
+	var kept []string
+	for _, value := range header["Connection"] {
+		var options []string
+		for _, option := range strings.Split(value, ",") {
+			if !strings.EqualFold(strings.TrimSpace(option), name) {
+				options = append(options, option)
+			}
+		}
+		if len(options) > 0 {
+			kept = append(kept, strings.Join(options, ","))
+		}
+	}
+	if len(kept) == 0 {
+		header.Del("Connection")
+	} else {
+		header["Connection"] = kept
+	}
+}
+
 // forwardRequest forwards the given request from the proxy to
 // the backend server and reports the response back to the proxy.
 func forwardRequest(client *http.Client, hostProxy http.Handler, request *utils.ForwardedRequest) error {
@@ -152,6 +174,9 @@ func forwardRequest(client *http.Client, hostProxy http.Handler, request *utils.
 	}
 	if *forwardUserID {
 		httpRequest.Header.Set(utils.HeaderUserID, request.User)
+		// A client must not be able to have the header dropped on the way to
+		// the backend by declaring it hop-by-hop.
+		keepEndToEnd(httpRequest.Header, utils.HeaderUserID)
 	}
 	if *stripCredentials {
 		httpRequest.Header.Del(headerAuthorization)
